@@ -25,15 +25,36 @@ type c01World struct {
 	// interleavings left: a peer message may be handled between the block processor's pop of a
 	// block and its ProcessBlock call (needs the property's source rewrite that inserts the point)
 	interleave int
+	// the in-sync notification was delivered at an instant when the node did not hold every
+	// block announced so far (observed inside the notification, not after the step)
+	inSyncEarly bool
+	hooked      *vkRecorder
+}
+
+// watch makes the current node's recorder evaluate the in-sync condition at the instant of the
+// notification.
+func (w *c01World) watch() {
+	if w.hooked == w.k.rec {
+		return
+	}
+	w.hooked = w.k.rec
+	w.k.rec.onInSync = func() {
+		if !w.holdsAllAnnounced() {
+			w.inSyncEarly = true
+			verifrt.Note("in-sync notified while an announced block is not held: node height %d, peer best %v", w.k.node.blocks.LastHeight(), w.peer.best)
+		}
+	}
 }
 
 func (w *c01World) pump() {
+	w.watch()
 	for _, m := range vkOutgoing(w.k.node) {
 		w.peer.handle(m)
 	}
 }
 
 func (w *c01World) deliver() bool {
+	w.watch()
 	if len(w.peer.toNode) == 0 {
 		return false
 	}
@@ -53,11 +74,16 @@ func (w *c01World) deliver() bool {
 }
 
 func (w *c01World) process() {
+	w.watch()
 	if w.interleave > 0 {
 		vkInterleave = func(point string) {
 			if w.interleave > 0 && len(w.peer.toNode) > 0 && verifrt.Choose("interleave: handle the next peer message at "+point, 2) == 1 {
 				w.interleave--
 				w.deliver()
+				// ... and the poll goroutine may run there as well
+				if verifrt.Choose("interleave: then the periodic check runs", 2) == 1 {
+					w.poll()
+				}
 				verifrt.Reach("world.interleaved")
 			}
 		}
@@ -75,6 +101,7 @@ func (w *c01World) process() {
 }
 
 func (w *c01World) poll() {
+	w.watch()
 	err := w.k.node.check(w.ctx)
 	if !w.tolerant {
 		verifrt.Sig("check", "err")
@@ -108,6 +135,25 @@ func (w *c01World) restart() {
 	w.peer.sendHeaders = false
 	w.peer.announced = map[string]bool{}
 	verifrt.Reach("C01.restarted")
+}
+
+// reconnect: what Node.Run does when a request time-out (or a connection error) asks for a
+// restart: the SAME node saves, resets its sync state in place (State.Reset) and opens a new
+// connection to the peer.
+func (w *c01World) reconnect() {
+	n := w.k.node
+	n.blocks.Save(w.ctx)
+	n.txs.Save(w.ctx)
+	n.peers.Save(w.ctx)
+	n.state.Reset()
+	vkOutgoing(n) // what was queued for the dead connection is gone
+	n.state.SetVersionReceived()
+	n.state.MarkConnected()
+	w.peer.toNode = nil
+	w.peer.sendHeaders = false
+	w.peer.announced = map[string]bool{}
+	w.last = nil
+	verifrt.Reach("world.reconnected")
 }
 
 func (w *c01World) countInSync() int {
@@ -146,7 +192,7 @@ func (w *c01World) checkInSyncNotifications(before int) {
 		}
 		verifrt.Note("in-sync notified: node height %d tip %s, peer best %v, announced of best %v", w.k.node.blocks.LastHeight(), w.tree.byHash[*w.k.node.blocks.LastHash()], w.peer.best, ann)
 		verifrt.Sig("insync", "early")
-		verifrt.Assert(w.holdsAllAnnounced(), "C01.in-sync.only-when-holding-every-announced-block")
+		verifrt.Assert(w.holdsAllAnnounced() && !w.inSyncEarly, "C01.in-sync.only-when-holding-every-announced-block")
 		verifrt.Reach("C01.in-sync.notified")
 	}
 }
@@ -177,7 +223,11 @@ func (w *c01World) settle(rounds int) {
 		if !progressed && !w.converged() {
 			verifrt.Advance(11 * time.Minute)
 			if terr := w.k.node.state.CheckTimeouts(); terr != nil {
-				w.restart()
+				if w.tolerant {
+					w.restart() // faulted stores are resumed by a new process (C10)
+				} else {
+					w.reconnect()
+				}
 			}
 		}
 	}
